@@ -11,6 +11,7 @@ import (
 	"strconv"
 	"strings"
 	"sync"
+	"sync/atomic"
 	"time"
 
 	"github.com/deckhouse/deckhouse/pkg/log"
@@ -75,7 +76,19 @@ type world struct {
 	bad     string
 }
 
-const wStepTimeout = 10 * time.Second
+const wStepTimeout = 6 * time.Second
+
+// hangs counts cases in which the implementation stopped responding; after a few of them the rest of
+// the suite is skipped (each would only wait for its timeouts): the hanging cases are the finding.
+var hangs atomic.Int64
+
+func tooManyHangs(c *Case) bool {
+	if hangs.Load() >= 3 {
+		c.Inconcl = "skipped: the implementation already hung in 3 cases of this run"
+		return true
+	}
+	return false
+}
 
 func newWorld(c *Case, prefix string) *world {
 	w := &world{c: c, prefix: prefix, qs: map[int]*wq{}, pending: map[string][]task.Task{}, barrier: map[string]chan struct{}{}}
@@ -179,6 +192,9 @@ func itemsOf(q *queue.TaskQueue) string {
 }
 
 func (w *world) obs() string {
+	if w.bad != "" {
+		return "hang" // the implementation stopped responding: its locks may be held for ever
+	}
 	if len(w.order) == 0 {
 		return "empty"
 	}
@@ -207,6 +223,9 @@ var pointAt = map[string]string{"queue.loop": "loop", "queue.wait.afterCtxCheck"
 
 // opNew: NewNamedQueue (the real TaskQueueSet method), shortened timings, handler scripted by the harness.
 func (w *world) opNew(n int, withHandler bool) {
+	if w.bad != "" {
+		return
+	}
 	name := fmt.Sprintf("%s-%d", w.prefix, n)
 	q := &wq{n: n, name: name, at: "-", picked: make(chan pickInfo, 4), result: make(chan queue.TaskResult)}
 	var h func(task.Task) queue.TaskResult
@@ -233,8 +252,24 @@ func (w *world) opNew(n int, withHandler bool) {
 
 // await waits for the next observable position of q's worker: a yield point, the handler, or exit.
 func (w *world) await(q *wq) string {
-	poll := time.NewTicker(2 * time.Millisecond)
-	defer poll.Stop()
+	// the status is polled from a helper goroutine: a deadlocked implementation may hold q.m for ever
+	stopPoll := make(chan struct{})
+	exitCh := make(chan struct{}, 1)
+	go func() {
+		for {
+			select {
+			case <-stopPoll:
+				return
+			default:
+			}
+			if q.q.GetStatus() == "stop" {
+				exitCh <- struct{}{}
+				return
+			}
+			time.Sleep(time.Millisecond)
+		}
+	}()
+	defer close(stopPoll)
 	deadline := time.After(wStepTimeout)
 	for {
 		select {
@@ -251,15 +286,14 @@ func (w *world) await(q *wq) string {
 			q.at = "run:" + p.id
 			w.ev(fmt.Sprintf("s%d:%s:%s", q.n, p.id, p.head))
 			return q.at
-		case <-poll.C:
-			if q.q.GetStatus() == "stop" {
-				q.at = "exit"
-				w.ev(fmt.Sprintf("x%d", q.n))
-				return q.at
-			}
+		case <-exitCh:
+			q.at = "exit"
+			w.ev(fmt.Sprintf("x%d", q.n))
+			return q.at
 		case <-deadline:
 			q.at = "timeout"
 			w.bad = "timeout"
+			hangs.Add(1)
 			return q.at
 		}
 	}
@@ -267,6 +301,9 @@ func (w *world) await(q *wq) string {
 
 // opStart: one Start() call from the harness goroutine (the single caller thread).
 func (w *world) opStart(n int) {
+	if w.bad != "" {
+		return
+	}
 	q := w.qs[n]
 	first := !q.started && q.q.Handler != nil
 	q.q.Start()
@@ -295,6 +332,9 @@ func (w *world) release(q *wq) {
 
 // opGo: from loop / afterCheck / afterHandler to the next observable position.
 func (w *world) opGo(n int) {
+	if w.bad != "" {
+		return
+	}
 	q := w.qs[n]
 	w.release(q)
 	w.await(q)
@@ -304,6 +344,9 @@ func (w *world) opGo(n int) {
 // opSel: release the worker parked before the select; which branch the real select took is read off
 // the next position (tick point = ticker branch, exit = Done branch) and becomes part of the op line.
 func (w *world) opSel(n int, bothReady bool) string {
+	if w.bad != "" {
+		return "done"
+	}
 	q := w.qs[n]
 	if bothReady {
 		time.Sleep(4 * time.Millisecond) // let the ticker channel fill while the worker is parked
@@ -320,6 +363,9 @@ func (w *world) opSel(n int, bothReady bool) string {
 
 // opTickGo: from the tick point on; whether the wait had expired is read off what happens next.
 func (w *world) opTickGo(n int) {
+	if w.bad != "" {
+		return
+	}
 	q := w.qs[n]
 	w.release(q)
 	at := w.await(q)
@@ -346,6 +392,9 @@ func (w *world) mkTasks(n int, ids []int) []task.Task {
 
 // opRet: the handler of q returns the scripted result.
 func (w *world) opRet(n int, r wResult) {
+	if w.bad != "" {
+		return
+	}
 	q := w.qs[n]
 	status := map[string]queue.TaskStatus{"success": queue.Success, "fail": queue.Fail,
 		"repeat": queue.Repeat, "keep": queue.Keep}[r.status]
@@ -369,6 +418,9 @@ func (w *world) opRet(n int, r wResult) {
 // opFilter: what combineBindingContextForHook does from inside the handler: Filter on the own queue,
 // keeping the handled task.
 func (w *world) opFilter(n int, keep []int) {
+	if w.bad != "" {
+		return
+	}
 	q := w.qs[n]
 	ks := map[string]bool{q.cur: true}
 	for _, k := range keep {
@@ -383,6 +435,9 @@ type delivery struct{ q, t int }
 // opDeliver sends one event through the real ManagerEventsHandler (schedule channel or kube channel);
 // its callback answers with the scripted tasks; a barrier event tells when the consumer is done with it.
 func (w *world) opDeliver(ts []delivery, viaKube bool, opName string) {
+	if w.bad != "" {
+		return
+	}
 	var tasks []task.Task
 	var parts []string
 	before := map[int]string{}
@@ -432,6 +487,11 @@ func (w *world) opDeliver(ts []delivery, viaKube bool, opName string) {
 	case <-time.After(wStepTimeout):
 		w.bad = "timeout"
 	}
+	if w.bad != "" {
+		hangs.Add(1)
+		w.c.Op(opName+" "+joinStrs(parts), "hang")
+		return
+	}
 	for _, d := range ts {
 		if _, ok := w.qs[d.q]; ok {
 			w.ev(fmt.Sprintf("r%d:%d", d.q, d.t))
@@ -447,6 +507,9 @@ func (w *world) opDeliver(ts []delivery, viaKube bool, opName string) {
 
 // opStop: the real TaskQueueSet.Stop().
 func (w *world) opStop() {
+	if w.bad != "" {
+		return
+	}
 	w.tqs.Stop()
 	if !w.stopped {
 		w.ev("S")
@@ -456,6 +519,10 @@ func (w *world) opStop() {
 }
 
 func (w *world) oracleLog() {
+	if w.bad != "" {
+		w.c.Op("harness-timeout", "hang")
+		return
+	}
 	w.c.Op("log", w.traceStr())
 	w.c.Oracle(fmt.Sprintf("log q=%s ev=%s", w.names(), w.traceStr()))
 }
